@@ -1,12 +1,12 @@
 //go:build verif
 
-package config
+package ref
 
-// Shared by C01, C02, C03, C16: an abstract TOML document (vDoc), its renderer,
+// Shared by C01, C02, C03, C16: an abstract TOML document (Doc), its renderer,
 // and a reference model written from the property statements and
 // reference.toml — NOT from the parser — giving for every abstract document a
 // verdict (accept / reject / don't-care) and, for accepted documents, the
-// expected Config with every documented default filled in.
+// expected config.Config with every documented default filled in.
 
 import (
 	"fmt"
@@ -18,32 +18,33 @@ import (
 	"strings"
 	"time"
 
+	"github.com/mdlayher/corerad/internal/config"
 	"github.com/mdlayher/corerad/internal/plugin"
 	"github.com/mdlayher/ndp"
 )
 
-type vTable map[string]any
+type Table map[string]any
 
-type vIface struct {
-	Scalars vTable   `json:"scalars"`
-	Prefix  []vTable `json:"prefix,omitempty"`
-	Route   []vTable `json:"route,omitempty"`
-	RDNSS   []vTable `json:"rdnss,omitempty"`
-	DNSSL   []vTable `json:"dnssl,omitempty"`
-	PREF64  []vTable `json:"pref64,omitempty"`
+type Iface struct {
+	Scalars Table   `json:"scalars"`
+	Prefix  []Table `json:"prefix,omitempty"`
+	Route   []Table `json:"route,omitempty"`
+	RDNSS   []Table `json:"rdnss,omitempty"`
+	DNSSL   []Table `json:"dnssl,omitempty"`
+	PREF64  []Table `json:"pref64,omitempty"`
 }
 
-type vDoc struct {
-	Ifaces []vIface `json:"interfaces"`
-	Debug  vTable   `json:"debug,omitempty"`
-	Top    vTable   `json:"top,omitempty"`
+type Doc struct {
+	Ifaces []Iface `json:"interfaces"`
+	Debug  Table   `json:"debug,omitempty"`
+	Top    Table   `json:"top,omitempty"`
 }
 
-func (t vTable) clone() vTable {
+func (t Table) Clone() Table {
 	if t == nil {
 		return nil
 	}
-	c := vTable{}
+	c := Table{}
 	for k, v := range t {
 		if ss, ok := v.([]string); ok {
 			v = append([]string(nil), ss...)
@@ -53,30 +54,30 @@ func (t vTable) clone() vTable {
 	return c
 }
 
-func cloneTables(ts []vTable) []vTable {
+func CloneTables(ts []Table) []Table {
 	if ts == nil {
 		return nil
 	}
-	out := make([]vTable, len(ts))
+	out := make([]Table, len(ts))
 	for i, t := range ts {
-		out[i] = t.clone()
+		out[i] = t.Clone()
 	}
 	return out
 }
 
-func (d vDoc) clone() vDoc {
-	c := vDoc{Debug: d.Debug.clone(), Top: d.Top.clone()}
+func (d Doc) Clone() Doc {
+	c := Doc{Debug: d.Debug.Clone(), Top: d.Top.Clone()}
 	for _, i := range d.Ifaces {
-		c.Ifaces = append(c.Ifaces, vIface{
-			Scalars: i.Scalars.clone(),
-			Prefix:  cloneTables(i.Prefix), Route: cloneTables(i.Route), RDNSS: cloneTables(i.RDNSS),
-			DNSSL: cloneTables(i.DNSSL), PREF64: cloneTables(i.PREF64),
+		c.Ifaces = append(c.Ifaces, Iface{
+			Scalars: i.Scalars.Clone(),
+			Prefix:  CloneTables(i.Prefix), Route: CloneTables(i.Route), RDNSS: CloneTables(i.RDNSS),
+			DNSSL: CloneTables(i.DNSSL), PREF64: CloneTables(i.PREF64),
 		})
 	}
 	return c
 }
 
-func tomlValue(v any) string {
+func TOMLValue(v any) string {
 	switch x := v.(type) {
 	case string:
 		return strconv.Quote(x)
@@ -90,29 +91,29 @@ func tomlValue(v any) string {
 			qs[i] = strconv.Quote(s)
 		}
 		return "[" + strings.Join(qs, ", ") + "]"
-	case vRaw:
+	case Raw:
 		return string(x)
 	default:
-		panic(fmt.Sprintf("tomlValue: %T", v))
+		panic(fmt.Sprintf("TOMLValue: %T", v))
 	}
 }
 
-// vRaw is a raw TOML literal (used for type-mismatch deviations).
-type vRaw string
+// Raw is a raw TOML literal (used for type-mismatch deviations).
+type Raw string
 
-func renderTable(b *strings.Builder, indent string, t vTable) {
+func renderTable(b *strings.Builder, indent string, t Table) {
 	keys := make([]string, 0, len(t))
 	for k := range t {
 		keys = append(keys, k)
 	}
 	sort.Strings(keys)
 	for _, k := range keys {
-		fmt.Fprintf(b, "%s%s = %s\n", indent, k, tomlValue(t[k]))
+		fmt.Fprintf(b, "%s%s = %s\n", indent, k, TOMLValue(t[k]))
 	}
 }
 
 // TOML renders the document.
-func (d vDoc) TOML() string {
+func (d Doc) TOML() string {
 	var b strings.Builder
 	renderTable(&b, "", d.Top)
 	for _, ifi := range d.Ifaces {
@@ -120,7 +121,7 @@ func (d vDoc) TOML() string {
 		renderTable(&b, "", ifi.Scalars)
 		for _, g := range []struct {
 			name string
-			ts   []vTable
+			ts   []Table
 		}{{"prefix", ifi.Prefix}, {"route", ifi.Route}, {"rdnss", ifi.RDNSS}, {"dnssl", ifi.DNSSL}, {"pref64", ifi.PREF64}} {
 			for _, t := range g.ts {
 				fmt.Fprintf(&b, "  [[interfaces.%s]]\n", g.name)
@@ -135,25 +136,25 @@ func (d vDoc) TOML() string {
 	return b.String()
 }
 
-type vVerdict int
+type Verdict int
 
 const (
-	vAccept vVerdict = iota
-	vReject
-	vDontCare
+	Accept Verdict = iota
+	Reject
+	DontCare
 )
 
-func (v vVerdict) String() string { return [...]string{"accept", "reject", "dont-care"}[v] }
+func (v Verdict) String() string { return [...]string{"accept", "reject", "dont-care"}[v] }
 
 // refErr carries a verdict out of the reference model.
 type refErr struct {
-	v   vVerdict
+	v   Verdict
 	why string
 }
 
-func rej(format string, a ...any) *refErr  { return &refErr{vReject, fmt.Sprintf(format, a...)} }
-func dc(format string, a ...any) *refErr   { return &refErr{vDontCare, fmt.Sprintf(format, a...)} }
-func (e *refErr) Error() string            { return e.v.String() + ": " + e.why }
+func rej(format string, a ...any) *refErr { return &refErr{Reject, fmt.Sprintf(format, a...)} }
+func dc(format string, a ...any) *refErr  { return &refErr{DontCare, fmt.Sprintf(format, a...)} }
+func (e *refErr) Error() string           { return e.v.String() + ": " + e.why }
 func worse(a, b *refErr) *refErr {
 	// A document with both a definite violation and a don't-care aspect is a
 	// don't-care: either verdict of the parser is compatible with the statement
@@ -164,10 +165,10 @@ func worse(a, b *refErr) *refErr {
 	if b == nil {
 		return a
 	}
-	if a.v == vDontCare {
+	if a.v == DontCare {
 		return a
 	}
-	if b.v == vDontCare {
+	if b.v == DontCare {
 		return b
 	}
 	return a
@@ -191,7 +192,7 @@ var knownKeys = map[string]map[string]string{
 
 // checkKeys: unknown keys are rejected; a value of the wrong TOML type is a
 // don't-care (the statement is about values, not TOML typing).
-func checkKeys(t vTable, known map[string]string, where string) *refErr {
+func checkKeys(t Table, known map[string]string, where string) *refErr {
 	var e *refErr
 	for k, v := range t {
 		typ, ok := known[k]
@@ -217,11 +218,11 @@ func checkKeys(t vTable, known map[string]string, where string) *refErr {
 	return e
 }
 
-func getS(t vTable, k string) (string, bool) {
+func getS(t Table, k string) (string, bool) {
 	v, ok := t[k].(string)
 	return v, ok
 }
-func getB(t vTable, k string, def bool) bool {
+func getB(t Table, k string, def bool) bool {
 	if v, ok := t[k].(bool); ok {
 		return v
 	}
@@ -230,7 +231,7 @@ func getB(t vTable, k string, def bool) bool {
 
 // refDuration: documented duration syntax. present=false => def; "auto" => def;
 // "infinite" => ndp.Infinity; "" => 0; else Go duration.
-func refDuration(t vTable, k string, def time.Duration) (time.Duration, *refErr) {
+func refDuration(t Table, k string, def time.Duration) (time.Duration, *refErr) {
 	s, ok := getS(t, k)
 	if !ok {
 		return def, nil
@@ -252,7 +253,7 @@ func refDuration(t vTable, k string, def time.Duration) (time.Duration, *refErr)
 
 // floorSec returns floor(num/den * d) truncated to a whole second, in exact
 // arithmetic.
-func floorSecFrac(d time.Duration, num, den int64) time.Duration {
+func FloorSecFrac(d time.Duration, num, den int64) time.Duration {
 	x := new(big.Int).Mul(big.NewInt(int64(d)), big.NewInt(num))
 	x.Quo(x, big.NewInt(den)) // d >= 0 here
 	ns := x.Int64()
@@ -302,16 +303,16 @@ func refPositiveLifetime(d time.Duration, what string) *refErr {
 	return nil
 }
 
-// refParse is the reference model of config.Parse.
-func refParse(d vDoc, epoch time.Time) (vVerdict, *Config, string) {
+// Parse is the reference model of config.Parse.
+func Parse(d Doc, epoch time.Time) (Verdict, *config.Config, string) {
 	cfg, e := refParseErr(d, epoch)
 	if e != nil {
 		return e.v, nil, e.why
 	}
-	return vAccept, cfg, ""
+	return Accept, cfg, ""
 }
 
-func refParseErr(d vDoc, epoch time.Time) (*Config, *refErr) {
+func refParseErr(d Doc, epoch time.Time) (*config.Config, *refErr) {
 	var e *refErr
 	for k := range d.Top {
 		e = worse(e, rej("unknown top-level key %s", k))
@@ -319,14 +320,14 @@ func refParseErr(d vDoc, epoch time.Time) (*Config, *refErr) {
 	if len(d.Ifaces) == 0 {
 		e = worse(e, rej("no interfaces"))
 	}
-	cfg := &Config{Interfaces: []Interface{}}
+	cfg := &config.Config{Interfaces: []config.Interface{}}
 	if d.Debug != nil {
 		e = worse(e, checkKeys(d.Debug, knownKeys["debug"], "debug"))
 		if a, _ := getS(d.Debug, "address"); a != "" {
 			if !refTCPAddrOK(a) {
 				e = worse(e, rej("bad debug address %q", a))
 			}
-			cfg.Debug = Debug{Address: a, Prometheus: getB(d.Debug, "prometheus", false), PProf: getB(d.Debug, "pprof", false)}
+			cfg.Debug = config.Debug{Address: a, Prometheus: getB(d.Debug, "prometheus", false), PProf: getB(d.Debug, "pprof", false)}
 		}
 	}
 	seen := map[string]bool{}
@@ -366,16 +367,16 @@ func refTCPAddrOK(a string) bool {
 	return err == nil
 }
 
-func refIfaces(ifi vIface, epoch time.Time) ([]Interface, *refErr) {
+func refIfaces(ifi Iface, epoch time.Time) ([]config.Interface, *refErr) {
 	var e *refErr
 	s := ifi.Scalars
 	e = worse(e, checkKeys(s, knownIfaceKeys, "interfaces"))
-	for kind, ts := range map[string][]vTable{"prefix": ifi.Prefix, "route": ifi.Route, "rdnss": ifi.RDNSS, "dnssl": ifi.DNSSL, "pref64": ifi.PREF64} {
+	for kind, ts := range map[string][]Table{"prefix": ifi.Prefix, "route": ifi.Route, "rdnss": ifi.RDNSS, "dnssl": ifi.DNSSL, "pref64": ifi.PREF64} {
 		for _, t := range ts {
 			e = worse(e, checkKeys(t, knownKeys[kind], "interfaces."+kind))
 		}
 	}
-	if e != nil && e.v == vDontCare {
+	if e != nil && e.v == DontCare {
 		return nil, e
 	}
 
@@ -409,14 +410,14 @@ func refIfaces(ifi vIface, epoch time.Time) ([]Interface, *refErr) {
 		// advertising keys on a monitor interface must be rejected is not
 		// stated: don't-care when there are any problems, accept otherwise.
 		if ie != nil || e != nil {
-			if e != nil && e.v == vReject && ie == nil {
+			if e != nil && e.v == Reject && ie == nil {
 				return nil, e // e.g. unknown key: definitely rejected
 			}
 			return nil, dc("monitor interface with questionable advertising keys")
 		}
-		var out []Interface
+		var out []config.Interface
 		for _, n := range all {
-			out = append(out, Interface{Name: n, Monitor: true, Verbose: getB(s, "verbose", false)})
+			out = append(out, config.Interface{Name: n, Monitor: true, Verbose: getB(s, "verbose", false)})
 		}
 		return out, nil
 	}
@@ -424,7 +425,7 @@ func refIfaces(ifi vIface, epoch time.Time) ([]Interface, *refErr) {
 	if e != nil {
 		return nil, e
 	}
-	var out []Interface
+	var out []config.Interface
 	for _, n := range all {
 		// Every interface of a group gets its own plugin values.
 		x, _ := refIface(ifi, epoch)
@@ -434,10 +435,10 @@ func refIfaces(ifi vIface, epoch time.Time) ([]Interface, *refErr) {
 	return out, nil
 }
 
-func refIface(ifi vIface, epoch time.Time) (*Interface, *refErr) {
+func refIface(ifi Iface, epoch time.Time) (*config.Interface, *refErr) {
 	var e *refErr
 	s := ifi.Scalars
-	out := &Interface{
+	out := &config.Interface{
 		Advertise:   getB(s, "advertise", false),
 		Verbose:     getB(s, "verbose", false),
 		Managed:     getB(s, "managed", false),
@@ -463,7 +464,7 @@ func refIface(ifi vIface, epoch time.Time) (*Interface, *refErr) {
 	// explicit: 3s <= min <= 0.75*max (truncated to a whole second).
 	if v, _ := getS(s, "min_interval"); v == "" || v == "auto" {
 		if max >= 9*time.Second {
-			out.MinInterval = floorSecFrac(max, 33, 100)
+			out.MinInterval = FloorSecFrac(max, 33, 100)
 		} else {
 			out.MinInterval = max
 		}
@@ -471,8 +472,8 @@ func refIface(ifi vIface, epoch time.Time) (*Interface, *refErr) {
 		d, err := time.ParseDuration(v)
 		if err != nil {
 			e = worse(e, rej("bad min_interval %q", v))
-		} else if d < 3*time.Second || d > floorSecFrac(max, 3, 4) {
-			e = worse(e, rej("min_interval %s out of [3s, %s]", d, floorSecFrac(max, 3, 4)))
+		} else if d < 3*time.Second || d > FloorSecFrac(max, 3, 4) {
+			e = worse(e, rej("min_interval %s out of [3s, %s]", d, FloorSecFrac(max, 3, 4)))
 		}
 		out.MinInterval = d
 	}
@@ -528,7 +529,7 @@ func refIface(ifi vIface, epoch time.Time) (*Interface, *refErr) {
 
 var nat64Lens = map[int]bool{96: true, 64: true, 56: true, 48: true, 40: true, 32: true}
 
-func refPlugins(ifi vIface, max time.Duration, epoch time.Time) ([]plugin.Plugin, *refErr) {
+func refPlugins(ifi Iface, max time.Duration, epoch time.Time) ([]plugin.Plugin, *refErr) {
 	var e *refErr
 	var out []plugin.Plugin
 	s := ifi.Scalars
